@@ -872,6 +872,290 @@ def P21(m, R):
 
 
 # ----------------------------------------------------------------------------------------------------------------------
+class _Returned(Exception):
+    def __init__(self, value):
+        self.value = value
+
+
+class _LoopCtl(Exception):
+    def __init__(self, kind):
+        self.kind = kind
+
+
+def _parsable_scenarios(R, m, f, codes, memo):
+    """AnsiSetting.parsable, evaluated abstractly on every class of setting text the documented grammar distinguishes.  A scenario fixes
+    the truth of the atoms the function may ask (valid? empty? first code RESET? each code an int in 0..255? first code known? does a
+    colour function's setup match / is the first code a colour code? length right?); the body is interpreted statement by statement
+    under it and must return the documented verdict.  Any control-flow shape is accepted; an atom the scenario does not determine makes
+    the obligation UNDECIDED."""
+    from ..shapes import local_aliases, canon, quantifier
+    al = local_aliases(f)
+    first = '%s[0]' % codes
+    ln = 'len(%s)' % codes
+    selfn = f.self_name
+
+    def ctext(e):
+        return canon(e, al)
+
+    base = dict(valid=True, empty=False, reset=False, elem=7, known=True, fn='plain', lentotal='<', len1=True)
+    scen = [
+        ('not valid', dict(valid=False), False),
+        ('empty', dict(empty=True), False),
+        ('first code RESET', dict(reset=True, elem=0), False),
+        ('a code that is not an integer', dict(elem='str'), False),
+        ('a negative code', dict(elem=-1), False),
+        ('a code above 255', dict(elem=256), False),
+        ('unknown first code', dict(known=False, elem=99), False),
+        ('colour code without its setup, alone', dict(fn='dangling', elem=38), False),
+        ('colour code without its setup, more codes', dict(fn='dangling', elem=38, len1=False), False),
+        ('complete colour function', dict(fn='match', elem=38, len1=False, lentotal='='), True),
+        ('colour function with missing codes', dict(fn='match', elem=38, len1=False, lentotal='<'), False),
+        ('colour function followed by extra codes', dict(fn='match', elem=38, len1=False, lentotal='>'), False),
+        ('single known code 0 < c < 255', dict(), True),
+        ('single known code 255', dict(elem=255), True),
+        ('single known code 1', dict(elem=1), True),
+        ('several plain codes', dict(len1=False), False),
+    ]
+    fn_seqs = {'plain': [[(False, False)], [(False, False), (False, False)]],
+               'dangling': [[(False, True)], [(False, False), (False, True)], [(False, True), (False, False)]],
+               'match': [[(True, True)], [(False, True), (True, True)], [(False, False), (True, True)]]}
+
+    def run_scenario(sc, seq):
+        st = {'vars': {}, 'memo': None, 'it': None, 'elem_var': None}
+
+        def truth(t):
+            if isinstance(t, ast.Constant):
+                return bool(t.value)
+            if isinstance(t, ast.UnaryOp) and isinstance(t.op, ast.Not):
+                v = truth(t.operand)
+                return None if v is None else not v
+            if isinstance(t, ast.BoolOp):
+                # short-circuit, left to right
+                for x in t.values:
+                    v = truth(x)
+                    if v is None:
+                        return None
+                    if isinstance(t.op, ast.And) and not v:
+                        return False
+                    if isinstance(t.op, ast.Or) and v:
+                        return True
+                return isinstance(t.op, ast.And)
+            q = quantifier(t)
+            if q is not None:
+                kind, it, tgt, pred = q
+                if ctext(it) == codes and isinstance(tgt, ast.Name):
+                    if sc['empty']:
+                        return kind == 'all'
+                    old = st['elem_var']
+                    st['elem_var'] = tgt.id
+                    try:
+                        return truth(pred)
+                    finally:
+                        st['elem_var'] = old
+                if norm(it) == '_AnsiControlFn' and isinstance(tgt, ast.Name):
+                    outs = []
+                    for mt, cf in (seq or [(False, False)]):
+                        old = st['it']
+                        st['it'] = (tgt.id, mt, cf)
+                        try:
+                            outs.append(truth(pred))
+                        finally:
+                            st['it'] = old
+                    if None in outs:
+                        return None
+                    return all(outs) if kind == 'all' else any(outs)
+                return None
+            tx = ctext(t)
+            if tx == '%s.valid' % selfn:
+                return sc['valid']
+            if tx == codes:
+                return not sc['empty']
+            if isinstance(t, ast.Call) and call_name(t) == 'hasattr':
+                return False
+            if isinstance(t, ast.Name) and t.id in st['vars'] and isinstance(st['vars'][t.id], bool):
+                return st['vars'][t.id]
+            if tx == '%s.%s' % (selfn, memo) and isinstance(st['memo'], bool):
+                return st['memo']
+            if isinstance(t, ast.Call) and call_name(t) == 'isinstance' and len(t.args) == 2 and norm(t.args[1]) == 'int':
+                a0 = ctext(t.args[0])
+                if a0 == st['elem_var'] or a0 == first:
+                    return sc['elem'] != 'str'
+                return None
+            if isinstance(t, ast.Call) and call_name(t) == 'seq_starts_with_fn' and st['it'] is not None and norm(t.func.value) == st['it'][0] and \
+                    [ctext(a) for a in t.args] == [codes]:
+                return st['it'][1]
+            if isinstance(t, ast.Compare):
+                parts = [t.left] + list(t.comparators)
+                res = True
+                for (l, op, r) in zip(parts, t.ops, parts[1:]):
+                    v = cmp2(l, op, r)
+                    if v is None:
+                        return None
+                    if not v:
+                        res = False
+                        break
+                return res
+            return None
+
+        def num(e):
+            tx = ctext(e)
+            if isinstance(const_val(e, None), int) and not isinstance(const_val(e, None), bool):
+                return const_val(e)
+            if tx in (st['elem_var'], first):
+                if sc['empty'] and tx == first:
+                    raise Undecided('%s read although the list may be empty' % first)
+                return sc['elem'] if sc['elem'] != 'str' else None
+            if tx == 'AnsiParam.RESET.value':
+                return 0
+            return None
+
+        def cmp2(l, op, r):
+            lt, rt = ctext(l), ctext(r)
+            pair = {lt, rt}
+            # length facts
+            if ln in pair:
+                other = r if lt == ln else l
+                ot = ctext(other)
+                swapped = lt != ln
+                if st['it'] is not None and ot == '%s.total_seq_count' % st['it'][0]:
+                    a_ = {'<': 4, '=': 5, '>': 6}[sc['lentotal']]
+                    a_, b_ = (5, a_) if swapped else (a_, 5)
+                    return {ast.Eq: a_ == b_, ast.NotEq: a_ != b_, ast.Lt: a_ < b_, ast.LtE: a_ <= b_, ast.Gt: a_ > b_, ast.GtE: a_ >= b_}.get(type(op))
+                k = const_val(other, None)
+                if isinstance(k, int):
+                    n_ = 0 if sc['empty'] else (1 if sc['len1'] else 3)
+                    a_, b_ = (k, n_) if swapped else (n_, k)
+                    return {ast.Eq: a_ == b_, ast.NotEq: a_ != b_, ast.Lt: a_ < b_, ast.LtE: a_ <= b_, ast.Gt: a_ > b_, ast.GtE: a_ >= b_}.get(type(op))
+                return None
+            # first code against a colour function's code
+            if st['it'] is not None and '%s.setup_seq[0]' % st['it'][0] in pair and (first in pair or st['elem_var'] in pair):
+                if isinstance(op, (ast.Eq, ast.NotEq)):
+                    return st['it'][2] if isinstance(op, ast.Eq) else not st['it'][2]
+                return None
+            # first code RESET
+            if 'AnsiParam.RESET.value' in pair and first in pair and isinstance(op, (ast.Eq, ast.NotEq, ast.Is, ast.IsNot)):
+                if sc['empty']:
+                    raise Undecided('%s read although the list may be empty' % first)
+                v = sc['reset']
+                return v if isinstance(op, (ast.Eq, ast.Is)) else not v
+            a_, b_ = num(l), num(r)
+            if a_ is None or b_ is None:
+                return None
+            return {ast.Eq: a_ == b_, ast.NotEq: a_ != b_, ast.Lt: a_ < b_, ast.LtE: a_ <= b_, ast.Gt: a_ > b_, ast.GtE: a_ >= b_}.get(type(op))
+
+        def value(e):
+            if e is None:
+                return None
+            if isinstance(e, ast.Constant):
+                return e.value
+            tx = ctext(e)
+            if tx == '%s.%s' % (selfn, memo):
+                return st['memo']
+            if isinstance(e, ast.Name) and e.id in st['vars']:
+                return st['vars'][e.id]
+            v = truth(e)
+            if v is None:
+                raise Undecided('value `%s` is not determined by the scenario' % short(e))
+            return v
+
+        def decide(t):
+            v = truth(t)
+            if v is None:
+                raise Undecided('test `%s` is not determined by the scenario' % short(t))
+            return v
+
+        def run(stmts):
+            for s0 in stmts:
+                if isinstance(s0, ast.If):
+                    run(s0.body if decide(s0.test) else s0.orelse)
+                elif isinstance(s0, ast.Return):
+                    raise _Returned(value(s0.value))
+                elif isinstance(s0, ast.Raise):
+                    raise _Returned('raise')
+                elif isinstance(s0, (ast.Break, ast.Continue)):
+                    raise _LoopCtl('break' if isinstance(s0, ast.Break) else 'continue')
+                elif isinstance(s0, ast.Assign) and len(s0.targets) == 1:
+                    t_ = s0.targets[0]
+                    if norm(t_) == '%s.%s' % (selfn, memo):
+                        st['memo'] = value(s0.value)
+                    elif isinstance(t_, ast.Name):
+                        if t_.id in al or call_name(s0.value) == 'to_list':
+                            continue
+                        st['vars'][t_.id] = value(s0.value)
+                elif isinstance(s0, ast.For):
+                    itx = ctext(s0.iter)
+                    if itx == codes and isinstance(s0.target, ast.Name):
+                        if not sc['empty']:
+                            old = st['elem_var']
+                            st['elem_var'] = s0.target.id
+                            try:
+                                run(s0.body)
+                            except _LoopCtl as lc:
+                                if lc.kind == 'break':
+                                    st['elem_var'] = old
+                                    continue
+                            st['elem_var'] = old
+                        run(s0.orelse)
+                    elif norm(s0.iter) == '_AnsiControlFn' and isinstance(s0.target, ast.Name):
+                        broke = False
+                        for mt, cf in (seq or []):
+                            st['it'] = (s0.target.id, mt, cf)
+                            try:
+                                run(s0.body)
+                            except _LoopCtl as lc:
+                                if lc.kind == 'break':
+                                    broke = True
+                                    break
+                            finally:
+                                st['it'] = None
+                        if not broke:
+                            run(s0.orelse)
+                    else:
+                        raise Undecided('loop over %s' % short(s0.iter))
+                elif isinstance(s0, ast.Try):
+                    raises = any(isinstance(x, ast.Call) and call_name(x) == 'AnsiParam' for b_ in s0.body for x in ast.walk(b_))
+                    if raises and sc['empty']:
+                        raise Undecided('the first code is looked up although the list may be empty')
+                    if raises and (not sc['known'] or sc['elem'] == 'str' or (isinstance(sc['elem'], int) and not 0 <= sc['elem'] <= 255 and False)):
+                        h = next((h_ for h_ in s0.handlers if h_.type is None or 'ValueError' in norm(h_.type) or norm(h_.type) == 'Exception'), None)
+                        if h is None:
+                            raise _Returned('raise')
+                        run(h.body)
+                    else:
+                        run(s0.body)
+                        run(s0.orelse)
+                    run(s0.finalbody)
+                elif isinstance(s0, (ast.Expr, ast.AugAssign, ast.Pass)):
+                    continue
+                else:
+                    raise Undecided('statement %s' % short(s0))
+        try:
+            run(f.body)
+        except _Returned as r_:
+            return r_.value
+        return None
+
+    for name, delta, want in scen:
+        sc = dict(base)
+        sc.update(delta)
+        cons = 'parsable: ' + name
+        bad = None
+        try:
+            for seq in fn_seqs[sc['fn']]:
+                got = run_scenario(sc, seq)
+                if got is not want and not (want is False and got is False):
+                    bad = (got, seq)
+                    break
+        except Undecided as ex:
+            R.undecided(f, f.node, str(ex), construct=cons)
+            continue
+        except RecursionError:
+            R.undecided(f, f.node, 'too deep', construct=cons)
+            continue
+        R.check(bad is None, f, f.node, 'a setting with %s is %sparsable' % (name, '' if want else 'not '),
+                'for a setting with %s parsable returns %r; the documented answer is %r' % (name, bad[0] if bad else None, want), construct=cons)
+
+
 @rule('P25', 'parsable-clauses: every clause of the documented grammar has its guard in AnsiSetting.parsable', floor=7)
 def P25(m, R):
     f = m.fn('AnsiSetting.parsable')
@@ -886,75 +1170,7 @@ def P25(m, R):
             codes = norm(n.targets[0])
     if codes is None:
         raise AnalysisError('anchor vanished: to_list() in parsable')
-    # constant returns are False
-    consts = [r for r in rets if isinstance(r.value, ast.Constant)]
-    R.check(all(r.value.value is False for r in consts) and consts, f, consts[0] if consts else f.node, 'every constant return is False',
-            'a constant return yields %s' % [r.value.value for r in consts if r.value.value is not False], construct='constant returns')
-    # non-constant returns: the memo holding a length comparison
-    assigns = [n for n in f.walk() if isinstance(n, ast.Assign) and memo and norm(n.targets[0]) == 'self.' + memo and isinstance(n.value, ast.Compare)]
-    texts = sorted(norm(a.value) for a in assigns)
-    want = sorted(['len(%s) == fn.total_seq_count' % codes, 'len(%s) == 1' % codes])
-    R.check(texts == want, f, assigns[0] if assigns else f.node, 'the verdict is len == total length of the matched function, else len == 1',
-            'verdict expressions are %s, expected %s' % (texts, want), construct='verdicts')
-    def guard_returning_false(pred):
-        for n in f.walk():
-            if isinstance(n, ast.If) and any(isinstance(x, ast.Return) and const_val(x.value) is False for x in n.body) and pred(n):
-                return n
-        return None
-    g = guard_returning_false(lambda n: norm(n.test) == 'not self.valid')
-    R.check(g is not None, f, g or f.node, 'an invalid setting is not parsable', construct='clause: not valid')
-    g = guard_returning_false(lambda n: 'not ' + codes in norm(n.test) and 'RESET' in norm(n.test))
-    ok = g is not None and norm(g.test) in ('not %s or %s[0] == AnsiParam.RESET.value' % (codes, codes),)
-    R.check(ok, f, g or f.node, 'empty or reset-first is not parsable', 'guard is %s' % (short(g.test) if g else None), construct='clause: empty / reset')
-    # each code int in 0..255 (loop with an early `return False`, or all()/any())
-    from ..shapes import reject_predicate
-    lp = next((n for n in f.walk() if isinstance(n, ast.For) and norm(n.iter) == codes), None)
-    ok = False
-    tt = {}
-    rp_ = None
-    if lp is None:
-        for n in f.walk():
-            if isinstance(n, ast.If) and any(isinstance(x, ast.Return) and const_val(x.value) is False for x in n.body):
-                from ..shapes import quantifier
-                q_ = quantifier(n.test)
-                if q_ is not None and norm(q_[1]) == codes:
-                    # `if not all(Q): return False` arrives as kind 'any' of (not Q): rejects iff not Q
-                    rp_ = (q_[2], q_[3] if q_[0] == 'any' else ast.UnaryOp(op=ast.Not(), operand=q_[3]), n)
-    if lp is not None and len(lp.body) == 1 and isinstance(lp.body[0], ast.If) or rp_ is not None:
-        c = norm(lp.target) if lp is not None else norm(rp_[0])
-        t = lp.body[0].test if lp is not None else rp_[1]
-        tt = {}
-        for nm, isint, rank in (('str', False, 1), ('<0', True, -1), ('0', True, 0), ('mid', True, 1), ('255', True, 255), ('>255', True, 256)):
-            val = merge_valuations(flag_valuation({}, {'isinstance(%s, int)' % c: isint, 'not isinstance(%s, int)' % c: not isint}),
-                                   order_valuation({c: rank, '0': 0, '255': 255, '256': 256}))
-            tt[nm] = eval_guard(t, val)
-        ok = tt == {'str': True, '<0': True, '0': False, 'mid': False, '255': False, '>255': True} and \
-            (rp_ is not None or any(isinstance(x, ast.Return) and const_val(x.value) is False for x in lp.body[0].body))
-    if lp is None and rp_ is None:
-        R.undecided(f, f.node, 'the per-code range check is not recognised', construct='clause: codes int 0..255')
-    else:
-        R.check(ok, f, lp or rp_[2], 'every code must be an int in 0..255', 'range guard rejects %s' % sorted(k for k, v in tt.items() if v),
-                construct='clause: codes int 0..255')
-    # first code known
-    tr = next((n for n in f.walk() if isinstance(n, ast.Try)), None)
-    ok = tr is not None and any(norm(x) == 'AnsiParam(%s[0])' % codes for x in ast.walk(tr) if isinstance(x, ast.Call)) and \
-        any(norm(h.type) == 'ValueError' and any(isinstance(x, ast.Return) and const_val(x.value) is False for x in h.body) for h in tr.handlers)
-    R.check(ok, f, tr or f.node, 'an unknown first code is not parsable', construct='clause: first code known')
-    # function code without matching setup
-    lp2 = next((n for n in f.walk() if isinstance(n, ast.For) and norm(n.iter) == '_AnsiControlFn'), None)
-    ok = False
-    if lp2 is not None:
-        fn = norm(lp2.target)
-        chain = lp2.body[0] if lp2.body and isinstance(lp2.body[0], ast.If) else None
-        if chain is not None and norm(chain.test) == '%s.seq_starts_with_fn(%s)' % (fn, codes):
-            flagset = [x for x in ast.walk(chain) if isinstance(x, ast.Assign) and const_val(x.value) is True]
-            oe = chain.orelse[0] if len(chain.orelse) == 1 and isinstance(chain.orelse[0], ast.If) else None
-            ok = oe is not None and norm(oe.test) == '%s[0] == %s.setup_seq[0]' % (codes, fn) and bool(flagset)
-            if ok:
-                flag = norm(flagset[0].targets[0])
-                g = guard_returning_false(lambda n: norm(n.test) == flag)
-                ok = g is not None
-    R.check(ok, f, lp2 or f.node, 'a colour code (38/48/58) without one of its setup sequences is not parsable', construct='clause: function code without setup')
+    _parsable_scenarios(R, m, f, codes, memo)
     # to_list: every token appended exactly once (a loop with try/int/except, or a comprehension over a convert-or-keep helper)
     tl = m.fn('AnsiSetting.to_list')
     lp3 = next((n for n in tl.walk() if isinstance(n, ast.For)), None)
